@@ -42,6 +42,11 @@ def main():
             subprocess.run(['patch', '-p1', '-s', '-i', patch], cwd=dst, check=True)
         else:
             rel, old, new = spec
+            if os.path.isabs(rel):
+                rel = os.path.relpath(rel, '/repo')      # never touch /repo itself: the mutation goes into the scratch copy
+            if rel.startswith('..'):
+                print(f'MUTANT-ERROR: {rel!r} is not a file of the repository')
+                return 9
             k = None
             if '@@' in old:
                 old, k = old.rsplit('@@', 1)
